@@ -200,9 +200,9 @@ def run_case(args):
         ptoks = param_tokens(params)
         reqs = ["GEN " + ptoks + " | " + " ".join(w["log"]), "SAT"]
         # the C15 predicate on the implementation's own scenario
-        reqs += w["lines"] + ["POST15 " + ptoks]
+        reqs += w["lines"] + ["POST15 " + ptoks, "SAT"]
         out = C.run_driver(reqs)
-        gen_reply, sat_reply, post_reply = out[0], out[1], out[2]
+        gen_reply, sat_reply, post_reply, sat_impl_reply = out[0], out[1], out[2], out[3]
         expect = "ok 0 ; " + " ; ".join(w["lines"])
         res["hosts"] = sum(1 for l in w["lines"] if l.startswith("host "))
         bits = post_reply.split()
@@ -218,9 +218,13 @@ def run_case(args):
                 what=f"model generator replaying the recorded decisions differs from the implementation at line {fd}",
                 replay=dict(replay, impl_line=el[fd][:300] if fd < len(el) else None,
                             model_line=gl[fd][:300] if fd < len(gl) else None, decisions=w["log"][:400])))
-        # C16: plan from the model, replayed on the real environment
+        # C16: plan from the model, replayed on the real environment.  When the model generator cannot replay the
+        # recorded decisions (the generators have drifted apart: C15's business), the plan is searched on the scenario the
+        # implementation returned instead - solvability is a property of *that* scenario
         st = sat_reply.split()
-        if gen_reply.startswith("ok"):
+        if not gen_reply.startswith("ok"):
+            st = sat_impl_reply.split()
+        if st and st[0] in ("0", "1"):
             plan = [int(x) for x in st[2:]]
             res["plan_len"] = len(plan)
             p2 = dict(params)
